@@ -128,6 +128,12 @@ func (self *Fork) isStrictVolatile() bool {
 func (self *Fork) partialVdrKill() (*VDRKillReport, bool) {
 	self.storageLock.Lock()
 	defer self.storageLock.Unlock()
+	// Refuse to remove anything across a symlink.  Node.vdrKill checks this
+	// for the passes it starts, but the fork also gets here directly from its
+	// own split/join/complete transitions.
+	if self.node.vdrAcrossSymlink() {
+		return nil, true
+	}
 	if state := self.getState(); state.IsFailed() {
 		return nil, false
 	} else if state == DisabledState {
@@ -1065,6 +1071,14 @@ func (self *Node) vdrKill() (*VDRKillReport, bool) {
 		}
 	}
 	return mergeVDRKillReports(killReports), allDone
+}
+
+// True if the directory of this node or of any of its ancestors is a
+// symlink, in which case its files live outside of the pipestance directory
+// and must not be removed.
+func (self *Node) vdrAcrossSymlink() bool {
+	symlink, _ := self.vdrCheckSymlink()
+	return symlink != ""
 }
 
 type StorageEvent struct {
